@@ -1,3 +1,4 @@
+import MlsVerif.Model.Framing
 import MlsVerif.Model.Pending
 import MlsVerif.Model.External
 import MlsVerif.Model.Resumption
@@ -63,5 +64,11 @@ def handle (ws : List String) : String :=
     match k, pl old, pl new with
     | some k, some o, some n => if Resumption.checkSubgroup k o n then "ok" else "err"
     | _, _, _ => "bad-op"
+  | ["unfilter", bits, n] =>
+    -- the un-filtering loop of `validate_update_path`: filter flags of the sender's direct path, number of nodes sent
+    let fs : Option (List Bool) := if bits = "-" then some [] else bits.toList.mapM (fun c => if c = '1' then some true else if c = '0' then some false else none)
+    match fs, n.toNat? with
+    | some fs, some n => if (MlsVerif.Framing.unfilter fs (List.range n)).isSome then "ok" else "err"
+    | _, _ => "bad-op"
   | _ => "bad-op"
 end Driver.Small
